@@ -63,6 +63,21 @@ def _plan(tier):
     for e in range(7):
         for r1 in range(2):
             hists.append({'npr': 2, 'k': k2, 'shard': {'ev0': e, 'init_review_1': r1}, 'validate': 4})
+    # status contexts spread over several GraphQL pages: page size read from the query text in the source
+    import re
+    m = re.search(r'contexts \(first: (\d+)', loader.read(SRC))
+    if not m:
+        raise HarnessError('PR._update_github no longer pages statusCheckRollup contexts with `first: N`')
+    ps = int(m.group(1))
+    sizes = [ps - 1, ps, ps + 1, ps + 2]
+    evs = ['review', 'batch_done', 'status', 'poll']
+    for mi in range(len(sizes)):
+        if tier == 'quick':
+            hists.append({'npr': 1, 'k': 2, 'flood': sizes, 'events': evs, 'shard': {'flood_m': mi}, 'validate': 3})
+        else:
+            for e in range(len(evs)):
+                hists.append({'npr': 1, 'k': 3, 'flood': sizes, 'events': evs, 'shard': {'flood_m': mi, 'ev0': e},
+                              'validate': 3})
     return steps, hists
 
 
@@ -86,10 +101,13 @@ def run(R):
         'history': f'1 PR: {k1} events; 2 PRs: {k2} events; initial review state of each PR required/approved; '
                    'event kinds push(fresh or any earlier head), review(4 decisions), label toggle(WIP, stacked PR, '
                    'prio:high), status(context ci-test or lint, any commit the PR ever had, 3 states), '
-                   'batch_done(any running batch, success/failure), target_move, poll',
+                   'batch_done(any running batch, success/failure), target_move, poll; plus paginated-status histories: 1 PR whose '
+                   f'head carries page_size-1 .. page_size+2 extra contexts (one possibly non-success at a symbolic position), '
+                   f'{2 if R.tier == "quick" else 3} events from review/batch_done/status/poll',
     }
     R.assume(
-        'GitHub and batch are fakes below ci.github (REST paths and the one GraphQL query the code sends; batch '
+        'GitHub and batch are fakes below ci.github (REST paths and the one GraphQL query the code sends, whose status '
+        'contexts connection is served in pages of the `first:` size with `after:` cursors; batch '
         'list_batches filters on the attribute tokens the code uses, newest first); DB says every PR author is '
         'authorised and no batch is invalidated',
         'GitHub refuses a merge whose `sha` is not the current PR head (409), may refuse otherwise (solver choice), '
@@ -155,7 +173,9 @@ def run(R):
         aborted += r['aborted_updates']
         for smp in r['samples'][:1]:
             R.sample({'history': s, **smp})
-        name = (f'history {s["npr"]} PR{"s" if s["npr"] > 1 else ""}, {s["k"]} events, shard {s["shard"]}: every accepted '
+        fl = (f' with {s["flood"][s["shard"]["flood_m"]]} further status contexts on the head (GraphQL pages of the size '
+              f'the query asks for; one context at a symbolic position may be non-success),') if s.get('flood') else ','
+        name = (f'history {s["npr"]} PR{"s" if s["npr"] > 1 else ""}{fl} {s["k"]} events, shard {s["shard"]}: every accepted '
                 f'merge is approved, unlabelled, all-success on the merged head, tested on the current target; '
                 f'<= 1 merge per update / target commit')
         det = {'paths': r['paths'], 'paths_with_merge': r['merging_paths'], 'merges': r['merges'],
@@ -173,7 +193,8 @@ def run(R):
                 if 'status' in cls and 'not-success' in cls:
                     cls = 'merge-with-non-success-status-on-head'
                 st = R.finding(cls, f'{vio["what"]}; events {vio["events"]}',
-                               {'kind': 'history', 'npr': s['npr'], 'k': s['k'], 'pins': vio['pins']})
+                               {'kind': 'history', 'npr': s['npr'], 'k': s['k'], 'pins': vio['pins'],
+                                'events': s.get('events'), 'flood': s.get('flood')})
                 status = st if status == 'discharged' or st == 'violated' else status
             R.ob(name, status, r['secs'], det, nontrivial=True)
         else:
